@@ -7,6 +7,8 @@ leg 2 (E2)  histories: every ordered sequence of 2 (thorough: 3) scenarios insid
             call must equal the output of the same scenario run alone in a fresh process.
 leg 3 (E1)  input immutability: object-graph fingerprint of both input trees before/after diff(), edited_cost(),
             rendering and get_all_edits(), over mc.pairspace.
+leg 5 (E2)  library histories: every ordered pair of small type-confusable document pairs diffed one after the other in a
+            pristine forked process; the second result (cost, script, rendering) must equal its fresh-process result.
 leg 4       confirmation (not decision): each scenario in real subprocesses under several PYTHONHASHSEEDs on real
             file descriptors; all outputs must agree with each other and with the in-process output of leg 1.
 """
@@ -233,6 +235,96 @@ def _leg3_shard(i, n, tier, payload):
     return r
 
 
+# ---- leg 5: library-level histories from a pristine process ---------------------------------------------------------
+def lib_cases(tier):
+    import itertools
+    if tier == 'quick':
+        docs = [[], [1], ['1'], [True], [1, 1], [1, '1'], ['1', 1], [1, True], [0, 1], [1, 2, 3], [0, 1, 2]]
+    else:
+        alpha = (1, '1', True, 0)
+        docs = []
+        for n in range(0, 3):
+            docs.extend(list(t) for t in itertools.product(alpha, repeat=n))
+        docs += [[1, 2, 3], [0, 1, 2]]
+    docs += [{'a': 1}, {'a': '1'}, {'a': True}]
+    out = []
+    for a in docs:
+        for b in docs:
+            if type(a) is type(b):
+                out.append((a, b))
+    return out
+
+
+def lib_result(pair):
+    from mc.script import canon_script, refine, tighten_fully
+    a, b = pair
+    ta = pairspace.build('json', a, ['auto', 'on'])
+    tb = pairspace.build('json', b, ['auto', 'on'])
+    d = ta.diff(tb)
+    cost = d.edited_cost()
+    e = ta.edits(tb)
+    refine(e)
+    tighten_fully(e)
+    from props.c02_equal import render
+    return (cost, h(canon_script(e)), render(d, False))
+
+
+def in_fresh_child(fn, arg):
+    """Run fn(arg) in a forked child of this (pristine) process and return its pickled result."""
+    import os
+    import pickle
+    r, w = os.pipe()
+    pid = os.fork()
+    if pid == 0:
+        try:
+            os.close(r)
+            try:
+                out = ('ok', fn(arg))
+            except BaseException as e:  # noqa
+                out = ('exc', f'{type(e).__name__}: {e}')
+            with os.fdopen(w, 'wb') as f:
+                pickle.dump(out, f)
+        finally:
+            os._exit(0)
+    os.close(w)
+    with os.fdopen(r, 'rb') as f:
+        data = f.read()
+    os.waitpid(pid, 0)
+    return pickle.loads(data) if data else ('exc', 'child died')
+
+
+def _two(args):
+    c1, c2 = args
+    lib_result(c1)
+    return lib_result(c2)
+
+
+def _leg5_shard(i, n, tier, payload):
+    r = Result()
+    cases = lib_cases(tier)
+    fresh = {}
+    k = 0
+    for j, c2 in enumerate(cases):
+        for c1 in cases:
+            if k % n == i:
+                if j not in fresh:
+                    fresh[j] = in_fresh_child(lib_result, c2)
+                got = in_fresh_child(_two, (c1, c2))
+                r.evaluations += 1
+                r.transitions += 2
+                r.traces += 1
+                if got != fresh[j]:
+                    what = 'cost' if got[0] == 'ok' and fresh[j][0] == 'ok' and got[1][0] != fresh[j][1][0] else 'script_or_rendering'
+                    r.fail(f'library_result_depends_on_history @ TreeNode.diff : {what} of the second comparison',
+                           {'leg': 5, 'first': list(c1), 'second': list(c2)},
+                           f'after diffing {c1!r}: {c2!r} gives {got!r}; in a fresh process {fresh[j]!r}', order=k)
+                else:
+                    r.outcomes.add(h(('leg5', k)))
+            k += 1
+    r.extra['leg5_histories'] = r.evaluations
+    return r
+
+
 def run(ctx):
     res = Result()
     import tempfile
@@ -289,6 +381,7 @@ def run(ctx):
         shutil.rmtree(dirp, ignore_errors=True)
     res.merge(run_sharded(ctx, __name__, '_leg1_shard', ctx.workers * 2))
     res.merge(run_sharded(ctx, __name__, '_leg3_shard', ctx.workers * 4))
+    res.merge(run_sharded(ctx, __name__, '_leg5_shard', ctx.workers * 4))
     res.samples.append({'leg': 1, 'a': {'k1': 1, 'k2': 1, 'k3': 1}, 'b': {}, 'flags': ['-k']})
     return res
 
@@ -297,6 +390,15 @@ def replay(case):
     leg = case.get('leg')
     if leg == 3:
         return leg3_eval(case)
+    if leg == 5:
+        c1, c2 = tuple(case['first']), tuple(case['second'])
+        fresh = in_fresh_child(lib_result, c2)
+        got = in_fresh_child(_two, (c1, c2))
+        if got != fresh:
+            what = 'cost' if got[0] == 'ok' and fresh[0] == 'ok' and got[1][0] != fresh[1][0] else 'script_or_rendering'
+            return {'key': f'library_result_depends_on_history @ TreeNode.diff : {what} of the second comparison',
+                    'detail': f'{got!r} vs fresh {fresh!r}'}
+        return None
     if leg == 1:
         with time_limit(CASE_TIMEOUT * 5):
             _, _, fail = leg1_case(case['a'], case['b'], case['flags'], pairspace.tmpdir())
